@@ -4,6 +4,8 @@ from __future__ import annotations
 import itertools, os, random, time, traceback, multiprocessing as mp
 from pyvc.report import Ob, BOUNDED, REFUTED, UNDECIDED
 
+import faulthandler, signal
+faulthandler.register(signal.SIGUSR1, all_threads=True)
 NPROC = int(os.environ.get("VERIF_NPROC", "16"))
 
 
@@ -46,15 +48,21 @@ def _work(chunk):
                 keys.add(repr(inp))
         except Exception as e:  # contract errors and unexpected exceptions of the real code alike
             import deal
-            kind = "contract" if isinstance(e, (deal.ContractError, AssertionError)) else "exception"
+            kind = getattr(e, "verif_kind", None) or ("contract" if isinstance(e, (deal.ContractError, AssertionError)) else "exception")
             fails.append({"input": inp, "kind": kind, "error": f"{type(e).__name__}: {str(e)[:500]}",
                           "trace": traceback.format_exc()[-1500:] if kind == "exception" else ""})
+            if isinstance(inp, dict):
+                fails[-1]["input"] = dict(inp, _kind=kind)
             if len(fails) >= 200:
                 break
     return ev, keys, fails
 
 
-def run_case(ob_id, function, case_fn, inputs, bound, chunk=64, nproc=None, budget_s=None):
+def _work_indexed(arg):
+    return arg[0], _work(arg[1])
+
+
+def run_case(ob_id, function, case_fn, inputs, bound, chunk=64, nproc=None, budget_s=None, chunk_timeout=600):
     """Evaluate `case_fn(input)` (which raises on a contract violation and returns True when the input is non-trivial)
     over `inputs`.  Returns an Ob of tier T3."""
     global _CASE
@@ -64,18 +72,37 @@ def run_case(ob_id, function, case_fn, inputs, bound, chunk=64, nproc=None, budg
     chunks = [inputs[i:i + chunk] for i in range(0, len(inputs), chunk)]
     ev, keys, fails = 0, set(), []
     nproc = nproc or NPROC
+    hung = 0
     if len(chunks) <= 1 or nproc == 1:
         for c in chunks:
             e, k, f = _work(c)
             ev += e; keys |= k; fails += f
     else:
         ctx = mp.get_context("fork")
-        with ctx.Pool(min(nproc, len(chunks))) as pool:
-            for e, k, f in pool.imap_unordered(_work, chunks):
-                ev += e; keys |= k; fails += f
-                if budget_s and time.time() - t0 > budget_s:
-                    pool.terminate()
-                    break
+        todo = dict(enumerate(chunks))
+        for attempt in range(3):
+            if not todo:
+                break
+            pool = ctx.Pool(min(nproc, len(todo)))
+            try:
+                it = pool.imap_unordered(_work_indexed, list(todo.items()))
+                while todo:
+                    try:
+                        idx, (e, k, f) = it.next(timeout=chunk_timeout)
+                    except StopIteration:
+                        break
+                    except mp.TimeoutError:
+                        hung += 1      # a worker is stuck inside native code (never a verdict): retry the missing chunks
+                        break
+                    todo.pop(idx, None)
+                    ev += e; keys |= k; fails += f
+            finally:
+                pool.terminate(); pool.join()
+        if todo:
+            missing = sum(len(c) for c in todo.values())
+            ob = Ob(id=ob_id, tier="T3", status=UNDECIDED, function=function, solver="runtime(deal)", time_s=time.time() - t0, bound=bound,
+                    evaluations=ev, nontrivial=len(keys), detail=f"{missing} inputs could not be evaluated: worker hung {hung} times (native code), e.g. {list(todo.values())[0][0]}")
+            return ob
     ob = Ob(id=ob_id, tier="T3", status=BOUNDED, function=function, solver="runtime(deal)", time_s=time.time() - t0,
             bound=bound, evaluations=ev, nontrivial=len(keys), samples=[inputs[0], inputs[len(inputs) // 2], inputs[-1]] if inputs else [])
     if fails:
